@@ -386,6 +386,27 @@ AllStatements(s, op, o) ==
 LineLevelOf(gfaLevel) == gfaLevel
 LevelPropagated(gfaLevel, lineLevel) == lineLevel = LineLevelOf(gfaLevel)
 
+(* (a') DERIVED LINES KEEP THE LEVEL.  The library also constructs lines from
+   other lines: the segment and the links made by merge_linear_paths, the copies
+   made by multiply, the lines of the Gfa returned by to_gfa1 / to_gfa2 and the
+   line returned by Line.to_gfa1 / to_gfa2, a clone, the complement of a link,
+   the one-tag H lines into which the header is split, a line whose identifier
+   was renamed, a line that was disconnected and added again.  "Per Gfa and per
+   Line": such a line works at the level of the line (of the Gfa) it was derived
+   from, whatever its content, and a Gfa made from a Gfa has the level of its
+   source.  The report points of C18 for a derived line are those of Step with
+   lvl = that level (TraceFields, kind "prog", with c.lvl the source level).
+   Moreover a library operation applied to a valid document performs valid
+   assignments only: "a valid assignment is never rejected at any level" and
+   "every validation level builds the same graph and writes the same text", so
+   whether the operation succeeds and what is written afterwards do not depend on
+   the level (TraceFields, kind "lvl", with an operation after the load).     *)
+DeriveKinds == {"merge", "multiply", "convert-gfa", "convert-line", "clone", "complement",
+                "split-header", "rename", "readd"}
+DerivedLevelOf(sourceLevel, kind) == sourceLevel
+DerivedLevelPropagated(sourceLevel, kind, lineLevel) ==
+  kind \in DeriveKinds /\ lineLevel = DerivedLevelOf(sourceLevel, kind)
+
 (* (b) One custom tag of one line through a sequence of calls
          set(value) / delete / set(None) / set_datatype(t).
    State: [present, dt, v] -- dt = "none": no datatype is recorded for the tag;
@@ -416,4 +437,28 @@ HStep(h, op, refused, dtobs) ==
     [] op.k \in {"delete", "setnone"} -> IF h.present THEN HAbsent ELSE h
     [] op.k = "setdt" -> [h EXCEPT !.dt = op.t]
     [] OTHER -> h
+
+(* (c) WRITE PATHS.  The law of C20 is about THE tag of THE line, not about one
+   function: whichever public path writes a line that carries the tag -- the
+   line's own field_to_s / str, or, for a line that belongs to a Gfa, str(gfa),
+   the strings of gfa.lines, of gfa.headers (the header split into one-tag H
+   lines), Gfa.to_file, to_gfa1_s / to_gfa2_s and the Gfa made by to_gfa1 /
+   to_gfa2, or a clone of the line -- the tag is written with the datatype in
+   force (declared, or the default of a new tag), in that datatype's grammar,
+   once per value stored (a repeated header tag: once per value added), and is
+   read back equal from what was written.                                     *)
+WritePaths == {"field_to_s", "str(line)", "str(gfa)", "gfa.lines", "gfa.headers", "to_file",
+               "to_gfa1_s", "to_gfa2_s", "to_gfa1", "to_gfa2", "clone"}
+OccurrencesOK(nstored, nwritten) == nwritten = nstored
+
+(* (d) EQUALITY OF THE COPIES (C19).  The clone "compares equal" to the original:
+   in the model, two copies are equal when every field holds the same value
+   (same class, same written identity ver).  Reading is not editing: Get / Write /
+   Str / Validate / ValidateField on either copy leave valid fields as they are
+   (Step), so copies that were equal stay equal -- whether a field is stored
+   parsed or still encoded, at every level, is not observable through ==.      *)
+ReadOps == {"get", "write", "str", "validate", "vfield"}
+CopiesEqual(s) == s.has /\ s.c.fields = s.o.fields
+PReadKeepsEqual(s, op, o) ==
+  (op.k \in ReadOps /\ CopiesEqual(s) /\ InvalidFields(s.o) = {}) => CopiesEqual(o.st)
 =============================================================================
